@@ -459,6 +459,51 @@ fn oracle_tree(kind: &str, depth: usize, with_composites: bool) -> bool {
     r.done()
 }
 
+// ------------------------------------------------------------------------------------------------ trait fast path called directly (C07, C11)
+/// AltrootFS::copy_file called on the filesystem object (the path type's own destination check masks part of these inputs): the executable form of
+/// the clauses altroot.copy_file.{root_refused, refuses_existing, ok, view_frame, confined}
+fn oracle_direct_altroot() -> bool {
+    use vfs::FileSystem;
+    let mut r = Report::new("direct.altroot");
+    let names = ["", "/a", "/b", "/d", "/d/x", "/d/y", "/nope/z", "/\u{e9}"];
+    for s in names { for d in names {
+        r.case();
+        let res = catch_unwind(AssertUnwindSafe(|| {
+            let mem: VfsPath = MemoryFS::new().into();
+            mem.join("out").unwrap().create_file().unwrap().write_all(b"O").unwrap();
+            let base = mem.join("r").unwrap(); base.create_dir().unwrap();
+            base.join("a").unwrap().create_file().unwrap().write_all(b"A").unwrap(); base.join("d").unwrap().create_dir().unwrap();
+            base.join("d/x").unwrap().create_file().unwrap().write_all(b"X").unwrap(); base.join("\u{e9}").unwrap().create_file().unwrap().write_all(b"E").unwrap();
+            let fs = AltrootFS::new(base.clone());
+            let strip = |v: Vec<(String, Option<Vec<u8>>, Option<std::time::SystemTime>, Option<std::time::SystemTime>)>| -> Vec<(String, Option<Vec<u8>>)> { v.into_iter().map(|(p, c, _, _)| (p, c)).collect() };
+            let before = strip(snapshot(&mem));
+            let res = fs.copy_file(s, d);
+            tr_res("copy_file", &res);
+            let after = strip(snapshot(&mem));
+            let at = |t: &Vec<(String, Option<Vec<u8>>)>, q: &str| t.iter().find(|(p, _)| p == &format!("/r{}", q)).map(|(_, c)| c.clone());
+            if d.is_empty() {
+                match &res { Err(e) if matches!(e.kind(), VfsErrorKind::NotSupported) => {}, other => return Some(format!("the root as destination must be refused as NotSupported, got {:?}", other.as_ref().map_err(|e| kind_name(e)))) }
+                if before != after { return Some("a refused copy changed the tree".into()); }
+            }
+            if !d.is_empty() && at(&before, d).is_some() {
+                if res.is_ok() { return Some("an existing destination was overwritten (Ok)".into()); }
+                if before != after { return Some("a copy onto an existing destination changed the tree".into()); }
+            }
+            if res.is_ok() {
+                let src = at(&before, s);
+                match src { Some(Some(bytes)) if !s.is_empty() => { if at(&after, d) != Some(Some(bytes)) { return Some("Ok, but the destination does not hold the source bytes".into()); } }
+                            _ => return Some("Ok although the source is not a file of the view".into()) }
+            }
+            for (p, c) in &before { if *p != format!("/r{}", d) && after.iter().find(|(q, _)| q == p).map(|(_, c2)| c2) != Some(c) { return Some(format!("entry {} changed although it is not the destination", p)); } }
+            for (p, _) in &after { if *p != format!("/r{}", d) && !before.iter().any(|(q, _)| q == p) { return Some(format!("entry {} appeared although it is not the destination", p)); } }
+            None
+        }));
+        let what = format!("AltrootFS(/r)::copy_file({:?}, {:?})", s, d);
+        match res { Err(_) => r.fail(what, "panicked".into()), Ok(Some(x)) => r.fail(what, x), Ok(None) => {} }
+    } }
+    r.done()
+}
+
 // ------------------------------------------------------------------------------------------------ overlay frame (C08, C10)
 fn snapshot(root: &VfsPath) -> Vec<(String, Option<Vec<u8>>, Option<std::time::SystemTime>, Option<std::time::SystemTime>)> {
     let mut out = vec![];
@@ -1239,6 +1284,7 @@ fn main() {
             "times" => oracle_times(),
             "embedded" => oracle_embedded(),
             "handles" => oracle_handles(),
+            "direct.altroot" => oracle_direct_altroot(),
             "walk.vanish" => oracle_walk_vanish(),
             "hostile.physical" => oracle_hostile(),
             other => { println!("UNKNOWN {}", other); false }
